@@ -1,0 +1,13 @@
+//go:build verif
+// +build verif
+
+// Verification hook (build tag verif only): the two share collectors of a round1 that was
+// built and started by the production code (VerifRoundNew -> round1.Start sizes them from the
+// working group), wrapped as VerifSignGenerator.  Thin accessor, no behaviour.
+
+package logical
+
+// VerifRoundGenerators returns round1's block-signature and random-beacon collectors.
+func (v *VerifRound) VerifRoundGenerators() (block, beacon *VerifSignGenerator) {
+	return &VerifSignGenerator{g: v.r1.gSignGenerator}, &VerifSignGenerator{g: v.r1.rSignGenerator}
+}
